@@ -1329,7 +1329,7 @@ def _hist_from_key(key):
               "True/False/swap+split/auto-mps/nonlocal and two-/three-site in swap+split/auto-mps/nonlocal, gate_split(_), "
               "gate_with_auto_swap(_) (swap_back both), gate_with_submpo(_) and gate_nonlocal(_) (methods direct/dm/zipup, "
               "sweep_reverse, transpose), swap_sites_with_compress(_) (absorb default/left/right/both), swap_site_to(_), "
-              "compress_site, singular_values/schmidt_values/entropy/schmidt_gap (svd, svd:eig), magnetization X/Y/Z, "
+              "compress_site, singular_values/schmidt_values/entropy/schmidt_gap (svd, svd:eig), bipartite_schmidt_state, magnetization X/Y/Z, "
               "partial_trace_to_dense_canonical, local_expectation_canonical, compute_local_expectation_canonical, "
               "measure(_) (get None/outcome, remove, renorm, fixed or seeded outcome), sample_configuration, sample; "
               "operators well conditioned (singular values in [0.5,1.5]); non-unitary one-site gates through the generic "
